@@ -201,3 +201,32 @@ Example list_operators_with_the_real_evaluator : forall lf f st,
             PL [PL [VInt 1; VInt 3]; PL [VInt 2; VInt 4]]]) st.
 Proof. exact list_ops_demo. Qed.
 Print Assumptions list_operators_with_the_real_evaluator.
+
+(** * (range a b s) for every non-zero step (proofs/RangeProofs.v): the list is exactly the arithmetic progression
+    a, a+s, a+2s, ... restricted to the side of b that the sign of s selects — every such element, in order, each
+    once, nothing else; a zero step is an error. *)
+From WalModel.proofs Require Import RangeProofs.
+Theorem range_with_any_step : forall a b s, s <> 0 ->
+  py_range a b s = map (fun k => a + Z.of_nat k * s) (seq 0 (range_count a b s)).
+Proof. exact range_is_progression. Qed.
+Print Assumptions range_with_any_step.
+Theorem range_count_is_exact : forall a b s k, s <> 0 -> 0 <= k ->
+  ((if 0 <? s then a + k * s < b else b < a + k * s) <-> k < Z.of_nat (range_count a b s)).
+Proof. exact range_side_count. Qed.
+Print Assumptions range_count_is_exact.
+Theorem range_members : forall a b s x, s <> 0 ->
+  (In x (py_range a b s) <-> exists k, 0 <= k /\ x = a + k * s /\ (if 0 <? s then x < b else b < x)).
+Proof. exact range_membership. Qed.
+Print Assumptions range_members.
+Theorem range_operator_with_a_step : forall (ev : val -> M val) x y z a b s st st', s <> 0 ->
+  eval_args ev [x; y; z] st = Ok [VInt a; VInt b; VInt s] st' ->
+  op_range ev [x; y; z] st = Ok (PL (map VInt (map (fun k => a + Z.of_nat k * s) (seq 0 (range_count a b s))))) st'.
+Proof. exact op_range_three. Qed.
+Print Assumptions range_operator_with_a_step.
+Theorem range_with_step_zero_is_an_error : forall (ev : val -> M val) x y z a b st st',
+  eval_args ev [x; y; z] st = Ok [VInt a; VInt b; VInt 0] st' -> exists e, op_range ev [x; y; z] st = Er e st'.
+Proof. exact op_range_zero_step. Qed.
+Print Assumptions range_with_step_zero_is_an_error.
+Example a_descending_range : py_range 7 0 (-3) = [7; 4; 1] /\ range_count 7 0 (-3) = 3%nat /\ py_range 0 7 (-3) = [].
+Proof. exact range_descending. Qed.
+Print Assumptions a_descending_range.
